@@ -57,6 +57,75 @@ def parse_coq_value(block):
     rest = m.group(1).replace('""', '"') if m else ""
     return nums, b, rest
 
+
+# ---- output side: the model's printers against the real insertion operators, and the real round trip ----
+PNUMS_SHORT = ["0", "1", "-1", "2.5", "-0.25", "1000", "0.03125", "150", "-7", "0.5", "1024", "-3.75", "0.0625", "12.125", "-100", "3e+20", "-2e-10"]
+PNUMS_LONG = ["0.1", "-0.3", "0.7", "1e-300", "-1.7976931348623157e308", "5e-324", "123456789.12345679", "0.33333333333333331", "2.2250738585072014e-308", "-9007199254740993", "6.02214076e23", "1e22", "1e23", "-4.9406564584124654e-324"]
+PERR_LONG = ["0.1", "0.3", "1e-100", "1e100", "123456789.12345679", "0.33333333333333331", "0", "3"]
+PKINDS = {"vec2": 2, "vec3": 3, "vec4": 4, "stokes": 4, "est": 2, "vecest": 4, "vecest3": 6, "vec2c": 4}
+
+def gen_print_cases(r, n):
+    cases = [("basis", 6, ["0"]), ("basis", 6, ["1"]), ("basis", 6, ["2"]), ("hand", 6, ["1"]), ("hand", 6, ["-1"]), ("arg", 6, ["1"]), ("arg", 6, ["-1"])]
+    while len(cases) < n:
+        k = r.choice(sorted(PKINDS)); prec = r.choice([6, 17])
+        pool = PNUMS_SHORT if prec == 6 else PNUMS_LONG + PNUMS_SHORT
+        vals = [r.choice(pool) for _ in range(PKINDS[k])]
+        if k in ("est", "vecest", "vecest3"):
+            for i in range(1, len(vals), 2):
+                vals[i] = r.choice([x for x in PNUMS_SHORT if not x.startswith("-")] if prec == 6 else PERR_LONG)
+        cases.append((k, prec, vals))
+    return cases
+
+def model_print_expr(kind, elems):
+    q = lambda s: '"%s"' % s
+    if kind in ("vec2", "vec3", "vec4", "stokes"):
+        return "print_vec string (fun x => x) [%s]" % "; ".join(q(e) for e in elems)
+    tab = "(fun i : Q => nth (Z.to_nat (Qnum i)) [%s] \"\")" % "; ".join(q(e) for e in elems)
+    pairs = ["(%d # 1, %d # 1)" % (i, i + 1) for i in range(0, len(elems), 2)]
+    if kind == "est": return "print_estimate %s %s" % (tab, pairs[0])
+    if kind in ("vecest", "vecest3"): return "print_vec (Q * Q) (print_estimate %s) [%s]" % (tab, "; ".join(pairs))
+    if kind == "vec2c": return "print_vec (Q * Q) (print_complex %s) [%s]" % (tab, "; ".join(pairs))
+    if kind == "basis": return "print_basis %s" % ["Circular", "Linear", "Elliptical"][int(elems[0])]
+    return "print_pm1 (%s)" % elems[0]
+
+def run_print(bdir, repo, coqlib, r, n, note):
+    util = os.path.join(repo, "src/util")
+    exe = os.path.join(bdir, "c19_print")
+    rc, out = sh(["g++", "-std=gnu++17", "-w", "-I" + bdir, "-I" + util, os.path.join(os.path.dirname(__file__), "c19", "print.C"),
+                  os.path.join(util, "Conventions.C"), os.path.join(util, "random.C"), "-o", exe], bdir)
+    if rc != 0:
+        return 0, [{"what": "print harness does not compile", "detail": out[-800:]}], []
+    cases = gen_print_cases(r, n)
+    open(os.path.join(bdir, "c19_print_cases.txt"), "w").write("".join("%s\t%d\t%s\n" % (k, p, ",".join(v)) for k, p, v in cases))
+    try:
+        rc, out = sh([exe, os.path.join(bdir, "c19_print_cases.txt")], bdir, timeout=120)
+    except subprocess.TimeoutExpired:
+        return 0, [{"what": "the insertion operators do not terminate on the print cases (c19_print_cases.txt)"}], []
+    impl = [l.split("\t") for l in out.split("\n") if l]
+    if rc != 0 or len(impl) != len(cases):
+        return 0, [{"what": "print harness failed", "rc": rc, "lines": len(impl), "cases": len(cases), "detail": out[-400:]}], []
+    v = os.path.join(bdir, "C19_print_cases.v")
+    body = ["From Coq Require Import String Ascii List ZArith QArith.", "From Epsic Require Import TextIO.", "Import ListNotations.", "Set Printing Depth 100000.", "Set Printing Width 100000.", "Local Open Scope string_scope."]
+    for (k, prec, vals), im in zip(cases, impl):
+        elems = im[2].split("|") if im[2] else vals
+        body.append("Eval vm_compute in (%s)." % model_print_expr(k, elems))
+    open(v, "w").write("\n".join(body) + "\n")
+    rc, out = sh(["coqc", "-Q", coqlib, "Epsic", v], bdir)
+    if rc != 0:
+        return 0, [{"what": "print model run failed", "detail": out[-800:]}], []
+    model = [re.match(r'\s*"((?:[^"]|"")*)"', b).group(1) for b in re.split(r"\n\s*= ", "\n" + out)[1:]]
+    if len(model) != len(cases):
+        return 0, [{"what": "print model result count mismatch", "model": len(model), "cases": len(cases)}], []
+    mism, dist = [], {}
+    for (k, prec, vals), im, mo in zip(cases, impl, model):
+        dist[(k, prec)] = dist.get((k, prec), 0) + 1
+        bad = None
+        if im[1] != mo: bad = "printed text differs from the model's print of the same scalars"
+        elif im[3] != "1": bad = "the printed text does not read back to the same value"
+        if bad: mism.append({"kind": "print " + k, "precision": prec, "values": vals, "why": bad, "impl": im[1], "model": mo, "reads_back": im[3]})
+    note("C19 print distribution", sorted(dist.items()))
+    return len(cases), mism, ["print %s prec %d %s -> %s" % (cases[i][0], cases[i][1], ",".join(cases[i][2]), impl[i][1]) for i in (7, 8, 9) if i < len(cases)] + ["print distribution: " + ", ".join("%s/%d=%d" % (k[0], k[1], c) for k, c in sorted(dist.items()))]
+
 def run(pid, cfg, bdir, repo, coqlib, note):
     seed = int(os.environ.get("VERIF_SEED", "1")); tier = os.environ.get("VERIF_TIER", "quick")
     r = random.Random(seed)
@@ -132,4 +201,5 @@ def run(pid, cfg, bdir, repo, coqlib, note):
             samples.append("%s %r -> %s" % (k, s, "ok " + im[2] if ok_impl else "fail"))
     note("C19 input distribution", sorted(dist.items()))
     samples.append("distribution: " + ", ".join("%s/%s=%d" % (k[0], k[1], v) for k, v in sorted(dist.items())))
-    return len(cases), mism, samples
+    np, pm, ps = run_print(bdir, repo, coqlib, r, 300 if tier == "quick" else 3000, note)
+    return len(cases) + np, mism + pm, samples + ps
